@@ -1,6 +1,7 @@
 """C14 — table (affine) converters are exact, invertible and mutually consistent."""
 from __future__ import annotations
 
+import re
 from fractions import Fraction
 
 from common import parse_rat, rat
@@ -70,7 +71,19 @@ def gen_cases(rng, tier):
         units = [f"t{ti}u{i}" for i in range(n_units)]
         ops = [["decl_class", f"T{ti}", "-", "-", "0", "-"]]
         ops += [["new_unit", f"T{ti}", u, "none"] for u in units]
-        rows = []
+        # two units that HAVE a definition (as Rankine = 5/9 K, Reaumur = 5/4 degC
+        # would): without reference unit their factors say nothing about each
+        # other - the table alone converts, its absence raises
+        ops.append(["new_unit", f"T{ti}", f"t{ti}m0", "qty", "5/9", units[0], MODE])
+        ops.append(["new_unit", f"T{ti}", f"t{ti}m1", "qty", "5/4", units[1], MODE])
+        units += [f"t{ti}m0", f"t{ti}m1"]
+        # both directions of one pair tabulated with rows that are NOT inverse
+        # to each other (independently calibrated lines): each direction uses
+        # its own row, whichever was entered first
+        rows = [(units[0], units[1], Fraction(9, 5), Fraction(32)),
+                (units[1], units[0], Fraction(1, 2), Fraction(-7))]
+        if ti % 3 == 0:
+            rows.append((units[-2], units[-1], Fraction(4, 9), Fraction(-21853, 100)))
         for _ in range(rng.randint(2, 8)):
             u, v = rng.sample(units, 2)
             k = rng.choice([Fraction(9, 5), Fraction(5, 9), Fraction(1), Fraction(-2), Fraction(1, 3), Fraction(1000),
@@ -83,6 +96,10 @@ def gen_cases(rng, tier):
             # the pairs asked for: it answers None and the search goes on
             ops += [["new_unit", f"T{ti}", f"t{ti}u8", "none"], ["new_unit", f"T{ti}", f"t{ti}u9", "none"],
                     ["conv_table", f"T{ti}", fmt_rows([(f"t{ti}u8", f"t{ti}u9", Fraction(3), Fraction(1))])]]
+        for a_, b_ in ((units[0], units[1]), (units[1], units[0]), (units[-2], units[-1]),
+                       (units[-1], units[-2])):
+            ops.append(["q_conv", f"{_qty.tok(rng, _qty.amount(rng))}@{a_}", b_, MODE])
+            ops.append(["q_conv", f"0@{a_}", b_, MODE])
         for _ in range(per // 2):
             u, v, w = rng.choice(units), rng.choice(units), rng.choice(units)
             a = _qty.tok(rng, _qty.amount(rng))
@@ -139,7 +156,7 @@ def oracle(case, impl):
             continue
         a, _, u = o[1 if o[0] != "q_bin" else 2].rpartition("@")
         x = _qty.tok_value(a)
-        c = cls or ("T" + u[1:u.index("u")])
+        c = cls or ("T" + re.match(r"t(\d+)[um]", u).group(1))
         if o[0] == "q_conv":
             r = conv(table, u, o[2], x)
             exp = "err UnitConversionError" if r is None else f"ok qty {rat(r)}@{o[2]}:{c}"
